@@ -33,6 +33,7 @@ pub fn profile() -> Profile {
         tag_on_modifiers: false,
         extra: 0,
         tiny_patterns: true,
+        non_ascii_urls: false,
     }
 }
 
